@@ -217,8 +217,8 @@ def monitor (op obs : String) : String :=
                 "signed-hash-differs-from-contract"
               else if dkgInDomain o.inp && walletIdContract K ob.res.groupPubKey != ob.walletId then
                 "wallet-id-mismatch"
-              else if dkgSubmittable o.inp && validateFields ob.res != "" then
-                "validateFields:" ++ (validateFields ob.res).replace " " "_"
+              else if dkgSubmittable o.inp && validateFieldsGen ob.res != "" then
+                "validateFields:" ++ (validateFieldsGen ob.res).replace " " "_"
               else "signature-recovery-or-fields"
             "FAIL " ++ why
   | "inact" :: rest =>
@@ -237,8 +237,8 @@ def monitor (op obs : String) : String :=
               if claimInDomain o.inp &&
                 (claimPreimageContract o.inp.chainId o.inp.nonce (marshalCropped o.inp.x o.inp.y) ob.claim).map K
                   != some ob.hash then "signed-hash-differs-from-contract"
-              else if claimSubmittable o.inp && verifyClaimStatic ob.claim o.inp.ids.length != "" then
-                "verifyClaim:" ++ (verifyClaimStatic ob.claim o.inp.ids.length).replace " " "_"
+              else if claimSubmittable o.inp && verifyClaimStaticGen ob.claim o.inp.ids.length != "" then
+                "verifyClaim:" ++ (verifyClaimStaticGen ob.claim o.inp.ids.length).replace " " "_"
               else "signature-recovery-or-fields"
             "FAIL " ++ why
   | _ => "FAIL bad-op"
